@@ -197,12 +197,22 @@ pub const UNKNOWN_REASON_BASE: u32 = 1;
 impl TableProvider {
     pub fn new(u: Rc<Universe>, rec: Rc<Recorder>, gates: Option<Rc<Gates>>, cfg: &Cfg) -> Self {
         let maps = Rc::new(IdMaps::new(&u));
+        // union ids are handed out in order of first appearance in the universe
+        // (solvable by solvable), then in order of first use by a problem
+        let mut unions: Vec<Vec<u32>> = Vec::new();
+        for s in &u.solv {
+            for r in &s.reqs {
+                if r.len() > 1 && !unions.contains(r) {
+                    unions.push(r.clone());
+                }
+            }
+        }
         TableProvider {
             u,
             maps,
             rec,
             gates,
-            unions: RefCell::new(Vec::new()),
+            unions: RefCell::new(unions),
             polls: Cell::new(0),
             cancel_at: Cell::new(cfg.cancel_at),
             cancel_sticky: Cell::new(cfg.cancel_sticky),
